@@ -12,8 +12,8 @@ levels and the output are finite binary32 values in [0,1].
 * `attack_monotone`, `decay_monotone`, `release_monotone`: between two ticks of the same phase with no event in
   between the output moves the right way, for every start level, sustain level, position and increment.
 * `sustain_exact`, `rest_exact`, `decay_starts_at_one`, `release_ends_at_zero`: the exact levels of the property.
-Curve fidelity against the documented RC curves (the 0.5 % clause) is checked by the oracle with an f64 reference;
-it is not proved here (`partial`, see DESIGN.md).
+Curve fidelity against the documented RC curves (the 0.5 % clause) is proved in `C01Fidelity.lean`
+(`C01.Fidelity.fidelity`, over the reals, with Mathlib's bounds on `exp`).
 -/
 namespace C01
 open F32 AdsrTab AdsrL
